@@ -5,6 +5,8 @@
   run: that is what validates T6's translation rules (I3.Exec.Go) on the current source.
   Core-only; built as the native executable `drivergen`.
 -/
+import I3.Gen.GoFF
+import I3.Gen.GoFFG
 import I3.Gen.GoUtils
 import I3.Gen.GoPoseidon
 import I3.Gen.GoMimc7
@@ -140,6 +142,25 @@ def genOp (op : String) (pat : String) (args : List String) : Option String := d
     match babyjub_Signature_Decompress ((0, 1), 0) (← parseBytes? b) with
     | (r, none, recv) => pure s!"{showSig r} recv={showSig recv}"
     | (_, some e, _) => pure (classifyErr e)
+  -- value-level algorithms of the field packages (operands arrive as integers and enter through SetBigInt)
+  | "ff.exp", [x, e] => pure (toString (ff_Element_Exp 0 ((← parseNat? x) % Gen.ff_modulus) (← parseInt? e)).1)
+  | "ff.legendre", [x] => pure (toString (ff_Element_Legendre ((← parseNat? x) % Gen.ff_modulus)))
+  | "ff.div", [x, y] => pure (toString (ff_Element_Div 0 ((← parseNat? x) % Gen.ff_modulus) ((← parseNat? y) % Gen.ff_modulus)).1)
+  | "ff.batchinv", [l] => pure (showList toString (ff_BatchInvert ((← parseNatList? l).map (· % Gen.ff_modulus))))
+  | "ff.sqrt", [x] =>
+    match ff_Element_Sqrt 123456789 ((← parseNat? x) % Gen.ff_modulus) with
+    | (_, false) => pure "DIVERGED"
+    | ((none, _), true) => pure "nil"
+    | ((some r, z), true) => pure (if r == z then toString r else toString r ++ "!receiver-differs")
+  | "ffg.exp", [x, e] => pure (toString (ffg_Element_Exp 0 ((← parseNat? x) % Gen.ffg_modulus) (← parseInt? e)).1)
+  | "ffg.legendre", [x] => pure (toString (ffg_Element_Legendre ((← parseNat? x) % Gen.ffg_modulus)))
+  | "ffg.div", [x, y] => pure (toString (ffg_Element_Div 0 ((← parseNat? x) % Gen.ffg_modulus) ((← parseNat? y) % Gen.ffg_modulus)).1)
+  | "ffg.batchinv", [l] => pure (showList toString (ffg_BatchInvert ((← parseNatList? l).map (· % Gen.ffg_modulus))))
+  | "ffg.sqrt", [x] =>
+    match ffg_Element_Sqrt 123456789 ((← parseNat? x) % Gen.ffg_modulus) with
+    | (_, false) => pure "DIVERGED"
+    | ((none, _), true) => pure "nil"
+    | ((some r, z), true) => pure (if r == z then toString r else toString r ++ "!receiver-differs")
   | "u.lebytes", [v] => pure (showBytes (utils_BigIntLEBytes (← parseInt? v)))
   | "u.fromle", [b] => pure (toString (utils_SetBigIntFromLEBytes 0 (← parseBytes? b)).1)
   | "u.swap", [b] => pure (showBytes (utils_SwapEndianness (← parseBytes? b)))
